@@ -169,3 +169,13 @@ Section Judge.
       else if negb alh then (if overaligned al then (if agree then 3 else 13) else 2)
       else if agree then 0 else 1.
 End Judge.
+
+(* Transport encoding used by props/C38.py: the observation lists are written as [positive] literals p = z + 3
+   (a positive literal elaborates about twice as fast as the term (Zpos p); the case files hold ~10^5 numbers). *)
+Definition dz (p : positive) : Z := Zpos p - 3.
+Definition dzl (l : list positive) : list Z := map dz l.
+Definition judgeP (c : Z * nat * nat * list op * (Z * Z * Z) * (list positive * list positive) *
+                       list (list positive * list (list positive)) * list (list positive) * list positive) : Z :=
+  let '(al, N, K, ops, (objmod, inloff, szT), (resid, bytes), steps, full, fin) := c in
+  judge (mkCase al N K ops objmod inloff szT (dzl resid) (dzl bytes)
+           (map (fun st => (dzl (fst st), map dzl (snd st))) steps) (map dzl full) (dzl fin)).
